@@ -11,21 +11,21 @@ Open Scope Z_scope.
 Theorem exec_spec_holds C n A : WFQ C n -> in_range n A -> exec_spec C n A.
 Proof.
   intros HQ HA s s1 s2 r Hcl Hpre Hq.
-  pose proof (sort_abs_perm A) as HP.
-  assert (HA' : in_range n (sort_abs A)) by (apply (in_range_perm n A); [now symmetry|exact HA]).
-  assert (HAA : forall l, In l A <-> In l (sort_abs A)).
-  { intros l. split; apply Permutation_in; [now symmetry|exact HP]. }
-  destruct (preprocess_execute C n HQ A (sort_abs A) s s1 HA' HAA Hcl Hpre) as [H1 [H2 H3]].
+  pose proof (enum_key_In A) as HS.
+  assert (HA' : in_range n (enum_key A)).
+  { apply (in_range_same_set n A); [now apply same_set_sym|exact HA]. }
+  assert (HAA : forall l, In l A <-> In l (enum_key A)) by (intros l; symmetry; apply HS).
+  destruct (preprocess_execute C n HQ A (enum_key A) s s1 HA' HAA Hcl Hpre) as [H1 [H2 H3]].
   rewrite Hq in H1, H2, H3. cbn [fst snd] in H1, H2, H3.
   split; [|split; [|exact H2]].
-  - rewrite H1. now apply MCA_perm.
+  - rewrite H1. now apply MCA_same_set.
   - intros Hr. exact (H3 Hr).
 Qed.
 
 Lemma exec_spec_perm_holds C n A : WFQ C n -> in_range n A ->
-  forall A', Permutation A A' -> exec_spec C n A'.
+  forall A', same_set A A' -> exec_spec C n A'.
 Proof.
-  intros HQ HA A' HP. apply exec_spec_holds; [exact HQ|]. now apply (in_range_perm n A).
+  intros HQ HA A' HS. apply exec_spec_holds; [exact HQ|]. now apply (in_range_same_set n A).
 Qed.
 
 Section Final.
@@ -39,12 +39,12 @@ Let HWF : WF C n := wfq_wf C n HQ.
 Theorem enumerate_page_final A amount cur s :
   in_range n A -> Clean C s -> 0 < amount ->
   let c := MCA C n A in
-  let p := cur_get cur (sort_abs A) in
+  let p := cur_get cur (enum_key A) in
   let stop := Z.min c (p + amount) in
   0 < c -> 0 <= p < c ->
   exists s2, Clean C s2 /\
     enumerate (build C n) A amount cur s =
-    (s2, cur_set cur (sort_abs A) (stop mod c), Some (map sort_abs (slice p stop (EOr C A)))).
+    (s2, cur_set cur (enum_key A) (stop mod c), Some (map sort_abs (slice p stop (EOr C A)))).
 Proof.
   intros HA. exact (enumerate_page C n HWF Hn Hor A amount cur s HA (exec_spec_holds C n A HQ HA)).
 Qed.
@@ -52,11 +52,11 @@ Qed.
 Theorem enumerate_page_cursor_final A amount cur s s2 cur2 r :
   in_range n A -> Clean C s -> 0 < amount ->
   let c := MCA C n A in
-  let p := cur_get cur (sort_abs A) in
+  let p := cur_get cur (enum_key A) in
   0 < c -> 0 <= p < c ->
   enumerate (build C n) A amount cur s = (s2, cur2, r) ->
-  cur_get cur2 (sort_abs A) = Z.min c (p + amount) mod c /\
-  (forall k, k <> sort_abs A -> cur_get cur2 k = cur_get cur k).
+  cur_get cur2 (enum_key A) = Z.min c (p + amount) mod c /\
+  (forall k, k <> enum_key A -> cur_get cur2 k = cur_get cur k).
 Proof.
   intros HA.
   exact (enumerate_page_cursor C n HWF Hn Hor A amount cur s s2 cur2 r HA
@@ -80,9 +80,9 @@ Proof.
 Qed.
 
 Theorem pages_cyclic_final A :
-  in_range n A -> NoDup (map Z.abs A) ->
+  in_range n A ->
   forall reqs cur s, Clean C s -> Forall (req_ok A) reqs -> 0 < MCA C n A ->
-  let p := cur_get cur (sort_abs A) in
+  let p := cur_get cur (enum_key A) in
   0 <= p < MCA C n A ->
   exists rs cur' s',
     run_pages (build C n) reqs cur s = (rs, cur', s') /\
@@ -90,54 +90,108 @@ Theorem pages_cyclic_final A :
                                     (spec_total (MCA C n A) p (map snd reqs))) /\
     map (fun r => match r with Some l => Z.of_nat (length l) | None => -1 end) rs
       = spec_lens (MCA C n A) p (map snd reqs) /\
-    0 <= cur_get cur' (sort_abs A) < MCA C n A.
+    0 <= cur_get cur' (enum_key A) < MCA C n A.
 Proof.
-  intros HA HND.
-  exact (pages_cyclic C n A HWF Hn Hor HA HND (exec_spec_perm_holds C n A HQ HA)).
+  intros HA.
+  exact (pages_cyclic C n A HWF Hn Hor HA (exec_spec_perm_holds C n A HQ HA)).
 Qed.
 
 Theorem pages_within_cycle_final A :
-  in_range n A -> NoDup (map Z.abs A) ->
+  in_range n A ->
   forall reqs cur s, Clean C s -> Forall (req_ok A) reqs -> 0 < MCA C n A ->
-  cur_get cur (sort_abs A) = 0 -> zsum (map snd reqs) <= MCA C n A ->
+  cur_get cur (enum_key A) = 0 -> zsum (map snd reqs) <= MCA C n A ->
   exists rs cur' s',
     run_pages (build C n) reqs cur s = (rs, cur', s') /\
     pages_of rs = map sort_abs (firstn (Z.to_nat (zsum (map snd reqs))) (EOr C A)) /\
     NoDup (pages_of rs) /\
-    cur_get cur' (sort_abs A) = zsum (map snd reqs) mod MCA C n A.
+    cur_get cur' (enum_key A) = zsum (map snd reqs) mod MCA C n A.
 Proof.
-  intros HA HND.
-  exact (pages_within_cycle C n A HWF Hn Hor HA HND (exec_spec_perm_holds C n A HQ HA)).
+  intros HA.
+  exact (pages_within_cycle C n A HWF Hn Hor HA (exec_spec_perm_holds C n A HQ HA)).
 Qed.
 
 Theorem pages_within_cycle_from_final A :
-  in_range n A -> NoDup (map Z.abs A) ->
+  in_range n A ->
   forall reqs cur s, Clean C s -> Forall (req_ok A) reqs -> 0 < MCA C n A ->
-  let p := cur_get cur (sort_abs A) in
+  let p := cur_get cur (enum_key A) in
   0 <= p < MCA C n A -> p + zsum (map snd reqs) <= MCA C n A ->
   exists rs cur' s',
     run_pages (build C n) reqs cur s = (rs, cur', s') /\
     pages_of rs = map sort_abs (slice p (p + zsum (map snd reqs)) (EOr C A)) /\
     NoDup (pages_of rs) /\
-    cur_get cur' (sort_abs A) = (p + zsum (map snd reqs)) mod MCA C n A.
+    cur_get cur' (enum_key A) = (p + zsum (map snd reqs)) mod MCA C n A.
 Proof.
-  intros HA HND.
-  exact (pages_within_cycle_from C n A HWF Hn Hor HA HND (exec_spec_perm_holds C n A HQ HA)).
+  intros HA.
+  exact (pages_within_cycle_from C n A HWF Hn Hor HA (exec_spec_perm_holds C n A HQ HA)).
 Qed.
 
 Theorem pages_cycle_final A :
-  in_range n A -> NoDup (map Z.abs A) ->
+  in_range n A ->
   forall reqs cur s, Clean C s -> Forall (req_ok A) reqs -> 0 < MCA C n A ->
-  cur_get cur (sort_abs A) = 0 -> zsum (map snd reqs) = MCA C n A ->
+  cur_get cur (enum_key A) = 0 -> zsum (map snd reqs) = MCA C n A ->
   exists rs cur' s',
     run_pages (build C n) reqs cur s = (rs, cur', s') /\
     pages_of rs = map sort_abs (EOr C A) /\
     Permutation (pages_of rs) (ModelsA C n A) /\
     NoDup (pages_of rs) /\
-    cur_get cur' (sort_abs A) = 0.
+    cur_get cur' (enum_key A) = 0.
 Proof.
-  intros HA HND.
-  exact (pages_cycle C n A HWF Hn Hor HA HND (exec_spec_perm_holds C n A HQ HA)).
+  intros HA.
+  exact (pages_cycle C n A HWF Hn Hor HA (exec_spec_perm_holds C n A HQ HA)).
+Qed.
+
+(* F19: THE CURSOR KEY IS THE SET OF LITERALS.  A request spelled A' -- the literals of A in any
+   order, any of them any number of times -- reads and writes the cursor entry of A and returns
+   the page a request spelled A would have returned.  (Together with pages_*_final, whose requests
+   are [req_ok A] = same set: all spellings page through ONE cycle.) *)
+Theorem enumerate_same_set_final A A' amount cur s :
+  in_range n A -> same_set A A' -> Clean C s -> 0 < amount ->
+  let c := MCA C n A in
+  let p := cur_get cur (enum_key A) in
+  let stop := Z.min c (p + amount) in
+  0 < c -> 0 <= p < c ->
+  enum_key A' = enum_key A /\
+  exists s2, Clean C s2 /\
+    enumerate (build C n) A' amount cur s =
+    (s2, cur_set cur (enum_key A) (stop mod c), Some (map sort_abs (slice p stop (EOr C A)))).
+Proof.
+  intros HA HS Hcl Ham c p stop Hc Hp.
+  assert (HK : enum_key A' = enum_key A).
+  { symmetry. apply enum_key_same_set; [now apply (sat_consistent C n)|exact HS]. }
+  split; [exact HK|].
+  assert (HA' : in_range n A') by (now apply (in_range_same_set n A)).
+  assert (HcA : MCA C n A' = c) by (symmetry; now apply MCA_same_set).
+  assert (HEA : EOr C A' = EOr C A) by (symmetry; now apply EO_same_set).
+  destruct (enumerate_page_final A' amount cur s HA' Hcl Ham) as (s2 & Hcl2 & He).
+  - rewrite HcA. exact Hc.
+  - rewrite HK, HcA. exact Hp.
+  - exists s2. split; [exact Hcl2|]. rewrite He, HK, HcA, HEA. reflexivity.
 Qed.
 
 End Final.
+
+(* ---------- the code before F19 (finding K12): the key was the sorted LIST ---------- *)
+Definition enumerate_v0 (d : ddnnf) (A : cfg) (amount : Z) (cur : cursor) (s : scratch)
+  : scratch * cursor * option (list cfg) :=
+  if amount =? 0 then (s, cur, Some [])
+  else
+    match preprocess d A s with
+    | None => (s, cur, None)
+    | Some s1 =>
+      let A' := sort_abs A in
+      let '(s2, r) := execute_query d A' s1 in
+      if 0 <? r then
+        let rtv := rt d s2 in
+        let last_stop := cur_get cur A' in
+        let stop := Z.min rtv (last_stop + amount) in
+        let cur' := cur_set cur A' (stop mod rtv) in
+        let page := enumerate_node d (temps s2) (length (circ d)) last_stop stop (rootn d) in
+        (s2, cur', Some (map sort_abs page))
+      else (s2, cur, None)
+    end.
+
+(* the two versions differ in nothing else: without a repeated feature they are the same function *)
+Lemma enumerate_v0_nodup d A amount cur s :
+  NoDup (map Z.abs A) -> enumerate_v0 d A amount cur s = enumerate d A amount cur s.
+Proof. intros HN. unfold enumerate_v0, enumerate. now rewrite (enum_key_nodup A HN). Qed.
+
